@@ -35,6 +35,9 @@ def refs(kind):
          [If([(N('n'), [T('yes:'), V('n')])], [T('no')])],
          [Let([('q', N('n'))], [V('q')])]]
     if kind != 'tmpl':
+        # a let that binds a name to itself: the value is looked up (a callable is called) once, the result is what the name means
+        # inside the block -- for tags and for expressions
+        r.append([Let([('n', N('n'))], [V('n'), T('/'), P('n'), T('/'), V('n')]), T('|'), V('n')])
         r.append([If([(X('n'), [T('xyes')])], [T('xno')]), Let([('q', X('n'))], [P('q')])])
         # through the namespace object inside expressions: _['n'] and _.getitem('n', 1) call, _.getitem('n', 0) does not,
         # _.has_key('n') only searches, _.render(n) renders like a tag
